@@ -1883,7 +1883,7 @@ Proof.
       + apply (hs_step s e).
     - intros k0 Hc Hi. unfold conf_spec, e. change (ob_tun a) with (o_tun o). rewrite Htun.
       apply in_or_app. right. apply (R_conf _ _ _ HR k0); [congruence|exact Hi].
-    - unfold latch_spec. rewrite Eb. cbn [completed_spec e orb ob_next ob_cur ob_tun observe]. fold o. rewrite Sn, Sc, Htun.
+    - unfold latch_spec. rewrite Eb. unfold a. cbn [completed_spec e orb ob_next ob_cur ob_tun observe]. rewrite Sn, Sc, Htun.
       assert (Ep : is_some (slot_of s (next s)) && negb (is_some (slot_of s' (next s))) = false) by (destruct (next s); reflexivity).
       rewrite Ep. cbn [orb]. rewrite Hlatch, Hdue. rewrite (R_latch _ _ _ HR).
       destruct (cur s) as [c|]; cbn [slot_of so_init so_age]; [|rewrite Bool.andb_false_r, Bool.orb_false_r; reflexivity].
@@ -1899,23 +1899,167 @@ Proof.
   assert (Eka : key_at s (lidx k) = Some k).
   { unfold target in Htg. rewrite Eas in Htg. exact Htg. }
   rewrite Eka. cbn [slot_of so_age]. unfold age at 1. rewrite Hx.
-  cbn [ob_tun ob_next ob_cur ob_init observe]. fold o. rewrite Htun. cbn [andb].
+  change (ob_next (observe s op)) with (slot_of s (next s)).
   assert (Em : memN (lidx k) (slot_idx (slot_of s (next s))) = false).
   { destruct (next s) as [nx|] eqn:En; [|reflexivity]. cbn [slot_of slot_idx so_lidx memN existsb].
     destruct (N.eqb_spec (lidx k) (lidx nx)) as [E|]; [|reflexivity]. exfalso. apply Hnx. f_equal.
     assert (Hinn : In nx (keys s)) by (unfold keys; rewrite En; apply in_or_app; right; apply in_or_app; right; left; reflexivity).
     apply (lidx_inj s nx k H Hinn Hin). congruence. }
-  rewrite Em, Hfr. cbn [andb].
-  rewrite Sc. rewrite Hinit, Hdue.
+  rewrite Em, Hfr.
   assert (Hsp : spaced (t1_spec t e a) = true -> rate_limited s0 = false).
   { intros Hs. apply (spaced_not_limited s (t_since t) H (R_since _ _ _ HR)). exact Hs. }
+  generalize dependent (spaced (t1_spec t e a)). intros spc Hsp.
+  unfold a. cbn [ob_tun ob_cur ob_init observe]. rewrite Htun. cbn [andb].
+  rewrite Sc. rewrite Hinit, Hdue.
   rewrite (R_latch _ _ _ HR).
   destruct (cur s) as [c|]; cbn [slot_of so_init so_age].
   - unfold age. assert (Eio : forall b : bool, is_some (if b then Some (hd 0 (inits s')) else None) = b) by (intros []; reflexivity).
     rewrite Eio. cbn [andb].
     destruct (initiator c && (t_rekey_recv <=? (now s' - created c) / sec)); cbn [andb].
     + destruct (latch s); cbn [negb andb]; [reflexivity|].
-      destruct (spaced (t1_spec t e a)); [rewrite Hsp by reflexivity; reflexivity|]. destruct (negb (rate_limited s0)); reflexivity.
+      destruct spc; [rewrite Hsp by reflexivity; reflexivity|]. destruct (negb (rate_limited s0)); reflexivity.
     + rewrite Bool.andb_false_r. reflexivity.
   - rewrite Bool.andb_false_r. reflexivity.
+Qed.
+
+(* ---- receiving: confirmation ------------------------------------------------------------------------------------------ *)
+
+Lemma ok_recv_promoted pre t n sid k :
+  Rel (R pre) t n -> n + 2 < sec ->
+  target (R pre) t sid = Some k -> t_reject <=? (now (R pre) - created k) / sec = false ->
+  next (R pre) = Some k ->
+  ok pre t n (Recv sid).
+Proof.
+  intros HR Hn Htg Hx Hnx. unfold ok. cbv zeta.
+  pose proof (Inv_R pre) as H.
+  destruct (R_before _ _ _ HR) as (op & Eb).
+  set (s := R pre) in *. set (e := Recv sid) in *.
+  destruct (target_some s t n sid k H HR Hn Htg) as (Hin & Hid & Eas).
+  destruct (target_live_age s t n sid k H HR Hn Htg Hx) as (_ & _ & Hage).
+  set (s0 := set_now s (now s + 1)) in *.
+  assert (H0 : Inv s0) by apply (Inv_tick1 s H).
+  assert (Hnx0 : next s0 = Some k) by exact Hnx.
+  destruct (recv_next_promotes s0 k H0 Hnx0 (N.lt_le_incl _ _ Hage)) as (Hacc & Htun & Ec & Ep & En & Hhon).
+  destruct (recv_promoted_more s0 k H0 Hnx0 (N.lt_le_incl _ _ Hage)) as (Hlatch & Hinit0).
+  specialize (Hinit0 Hage).
+  rewrite Hid in Hacc, Htun, Ec, Ep, En, Hhon, Hlatch, Hinit0.
+  change (do_recv s0 sid) with (step s e) in Hacc, Htun, Ec, Ep, En, Hhon, Hlatch, Hinit0.
+  change (cur s0) with (cur s) in Ep. change (prev s0) with (prev s) in Hhon.
+  set (s' := fst (step s e)) in *. set (o := snd (step s e)) in *. set (a := observe s' o).
+  pose proof (I_next s H) as Hni. rewrite Hnx in Hni. cbn [opt_ok] in Hni. destruct Hni as [_ Hni].
+  pose proof (ND_R_snoc pre e) as Hnd'. fold s in Hnd'. fold s' in Hnd'.
+  assert (HR' : Rel s' (fst (sstep t (e, a))) (n + 1)).
+  { apply rel_after; try assumption; [reflexivity|reflexivity| | |]; fold s; fold e; fold s'; fold o; fold a.
+    - cbn [new_spec e app]. apply (sess_rel_shrink s s' (t_sess t) H (R_sess _ _ _ HR)).
+      + apply (sessions_step s e).
+      + apply (keys_sub s e H). left. reflexivity.
+      + apply (hs_step s e).
+    - intros k0 Hc Hi. unfold conf_spec, e. change (ob_tun a) with (o_tun o). rewrite Htun.
+      change (new_spec t (Recv sid) a ++ t_sess t) with (t_sess t). rewrite Eas.
+      assert (k0 = k) by congruence. subst k0. left. reflexivity.
+    - unfold latch_spec. rewrite Eb. unfold a. cbn [completed_spec e orb ob_next ob_cur ob_tun observe].
+      rewrite En, Ec, Hnx, Htun. cbn [slot_of is_some negb andb orb so_init]. rewrite Hni, Hlatch. reflexivity. }
+  split; [|exact HR'].
+  destruct (clause12 pre t n e HR') as [C1 C2]. fold s in C1, C2. fold s' in C1, C2. fold o in C1, C2. fold a in C1, C2.
+  apply first_false_all. intros p Hp'. unfold clauses_spec in Hp'. rewrite Eb in Hp'.
+  apply in_app_or in Hp'. destruct Hp' as [[<-|[<-|[]]]|Hp']; [exact C1|exact C2|].
+  cbn [e In] in Hp'. destruct Hp' as [<-|[]]. cbn [snd].
+  unfold c_recv. cbn [t1_spec t_sess t_latch]. change (new_spec t e a ++ t_sess t) with (t_sess t). rewrite Eas.
+  rewrite slot_with_observe.
+  assert (Eka : key_at s (lidx k) = Some k) by (apply key_at_next; [exact Hnx|reflexivity]).
+  rewrite Eka. cbn [slot_of so_age]. unfold age at 1. rewrite Hx.
+  change (ob_next (observe s op)) with (slot_of s (next s)). change (ob_cur (observe s op)) with (slot_of s (cur s)).
+  change (ob_prev (observe s op)) with (slot_of s (prev s)).
+  unfold a. rewrite (opt_in_table_false s' o s (prev s) Hnd' Hhon).
+  rewrite Hnx. cbn [slot_of slot_idx so_lidx memN existsb]. rewrite N.eqb_refl. cbn [orb].
+  cbn [ob_tun ob_cur ob_prev ob_next ob_init observe]. rewrite Htun, Ec, Ep, En, Hinit0.
+  cbn [slot_of is_some negb andb so_init]. rewrite Hni. cbn [andb].
+  rewrite (slot_eqb_of s' s (cur s) (cur s) eq_refl). cbn [slot_eqb so_lidx so_ridx so_init].
+  rewrite !N.eqb_refl. reflexivity.
+Qed.
+
+(* ---- receiving: all cases ---------------------------------------------------------------------------------------------- *)
+
+Lemma ok_recv pre t n sid :
+  Rel (R pre) t n -> n + 2 < sec -> ok pre t n (Recv sid).
+Proof.
+  intros HR Hn. pose proof (Inv_R pre) as H.
+  destruct (target (R pre) t sid) as [k|] eqn:Htg.
+  - destruct (t_reject <=? (now (R pre) - created k) / sec) eqn:Hx.
+    + apply ok_recv_refused; try assumption; [apply (target_expired _ t n sid k H HR Hn Htg Hx)|].
+      right. exists k. auto.
+    + destruct (next (R pre)) as [nx|] eqn:En.
+      * destruct (N.eqb_spec (lidx nx) (lidx k)) as [E|Hne].
+        -- destruct (target_some _ t n sid k H HR Hn Htg) as (Hin & _ & _).
+           assert (Hinn : In nx (keys (R pre))) by (unfold keys; rewrite En; apply in_or_app; right; apply in_or_app; right; left; reflexivity).
+           assert (nx = k) by (apply (lidx_inj _ nx k H Hinn Hin E)). subst nx.
+           apply (ok_recv_promoted pre t n sid k HR Hn Htg Hx En).
+        -- apply (ok_recv_plain pre t n sid k HR Hn Htg Hx). rewrite En. intros E. inversion E. subst. apply Hne. reflexivity.
+      * apply (ok_recv_plain pre t n sid k HR Hn Htg Hx). rewrite En. discriminate.
+  - apply ok_recv_refused; try assumption; [apply (target_none _ t n sid H HR Htg)|left; exact Htg].
+Qed.
+
+(* ==== the theorem ============================================================================================= *)
+
+Lemma ok_all pre t n e :
+  Rel (R pre) t n -> n + 2 < sec -> tick_of e mod sec = 0 -> ok pre t n e.
+Proof.
+  intros HR Hn Ht. destruct e.
+  - apply ok_simple; auto. left. exact I.
+  - apply ok_respond; assumption.
+  - apply ok_cr; assumption.
+  - apply ok_recv; assumption.
+  - apply ok_simple; auto. left. exact I.
+  - apply ok_simple; auto. left. exact I.
+  - apply ok_simple; auto. left. exact I.
+  - apply ok_simple; auto. left. exact I.
+  - apply ok_simple; auto.
+  - apply ok_simple; auto. left. exact I.
+Qed.
+
+Lemma Rel_init : Rel init sst0 0.
+Proof.
+  constructor.
+  - exists out0. reflexivity.
+  - reflexivity.
+  - reflexivity.
+  - reflexivity.
+  - cbn. exists 0. split; [reflexivity|]. vm_compute. discriminate.
+  - intros sid. cbn. exact I.
+  - cbn. discriminate.
+  - cbn. lia.
+  - vm_compute. discriminate.
+  - intros k [].
+Qed.
+
+Lemma trace_ok evs : forall pre t n pos,
+  Rel (R pre) t n ->
+  (forall d, In (Tick d) evs -> d mod sec = 0) ->
+  n + N.of_nat (length evs) + 1 < sec ->
+  first_violation t (model_trace (R pre) evs) pos = None.
+Proof.
+  induction evs as [|e evs IH]; intros pre t n pos HR Htk Hlen; [reflexivity|].
+  cbn [model_trace].
+  assert (Hn : n + 2 < sec) by (cbn [length] in Hlen; lia).
+  assert (Hte : tick_of e mod sec = 0).
+  { destruct e; cbn [tick_of]; try reflexivity. apply Htk. left. reflexivity. }
+  destruct (ok_all pre t n e HR Hn Hte) as [Hv HR']. cbv zeta in Hv, HR'.
+  destruct (step (R pre) e) as [s' o] eqn:Est. cbn [fst snd] in Hv, HR'.
+  cbn [first_violation].
+  assert (Es' : s' = R (pre ++ [e])) by (rewrite R_snoc, Est; reflexivity).
+  rewrite sstep_eq in *. cbn [fst snd] in *. rewrite Hv. cbn [N.eqb].
+  rewrite Es'. apply (IH (pre ++ [e]) _ (n + 1)).
+  - rewrite <- Es'. exact HR'.
+  - intros d Hd. apply Htk. right. exact Hd.
+  - cbn [length] in Hlen. lia.
+Qed.
+
+(* The executable property accepts every trace of the model, for every event list in which time moves in
+   whole seconds (the harness's discipline) and that is shorter than 10^9 - 1 events. *)
+Theorem model_satisfies_spec evs :
+  (forall d, In (Tick d) evs -> d mod sec = 0) -> N.of_nat (length evs) + 1 < sec ->
+  holdsb (model_trace init evs) = true.
+Proof.
+  intros Htk Hlen. unfold holdsb.
+  change init with (R []). rewrite (trace_ok evs [] sst0 0 0); [reflexivity|exact Rel_init|exact Htk|lia].
 Qed.
